@@ -172,6 +172,21 @@ def sliceOf (data : List Nat) (r : Nat × Nat) : Option (List Nat) :=
 the next `k` bytes as the file has. -/
 def readFill (file : List Nat) (pos k : Nat) : List Nat := (file.drop pos).take k
 
+/-- One `read(2)` call with `avail` bytes left in the file and a `want`-byte buffer: the OS
+may return any count between 1 and `min want avail` (short read), and 0 only at end of
+file or for an empty buffer.  `hint` is the adversary's choice. -/
+def osRead (avail want hint : Nat) : Nat :=
+  if min want avail = 0 then 0 else max 1 (min hint (min want avail))
+
+/-- The retry loop of `read_fill`: number of bytes placed in a `k`-byte buffer when the
+file has `avail` bytes after the current position.  `hint t` drives the short reads. -/
+def readFillCount (avail k : Nat) (hint : Nat → Nat) : (fuel total : Nat) → Nat
+  | 0, total => total
+  | fuel + 1, total =>
+    let n := osRead (avail - total) (k - total) (hint total)
+    let total' := total + n
+    if n = 0 ∨ total' = k then total' else readFillCount avail k hint fuel total'
+
 /-- The chunked read loop of `FileLoader::read` with chunk size `C` (`TMP_SIZE`). -/
 def readLoop (C : Nat) (file : List Nat) : (fuel pos remaining : Nat) → List Nat → List Nat
   | 0, _, _, buf => buf
@@ -221,5 +236,57 @@ def parseU64 (s : List Nat) : Option Nat :=
   | c :: rest =>
     if c = 43 then (if rest = [] then none else parseDigits rest 0)
     else parseDigits s 0
+
+/-! ## The whole external-data path -/
+
+/-- The three `DataLoader` implementations. -/
+inductive Loader where
+  | file | mmap | mem
+  deriving DecidableEq, Repr
+
+/-- Errors of the whole external-data path (`external_data_location` + `DataLoader::load`). -/
+inductive ExtErr where
+  | badOffset
+  | badLength
+  | load (e : LoadErr)
+  deriving DecidableEq, Repr
+
+/-- `external_data_location` followed by `DataLoader::load`.
+
+`lookup` stands for the environment: for `MemLoader` it is the map passed to
+`ModelOptions::external_data` (keyed by the raw location string); for the file and mmap
+loaders it is "`File::open(dir.push(location))` and the file's content" — by T1 that path
+is `dir/name`.  `none` = no such entry / `open` fails. -/
+def loadExternal (ld : Loader) (lookup : List Nat → Option (List Nat))
+    (loc offS lenS : List Nat) : Except ExtErr (List Nat) :=
+  match parseU64 offS with
+  | none => .error .badOffset
+  | some off =>
+    match parseU64 lenS with
+    | none => .error .badLength
+    | some len =>
+      -- `FileLoader::read` checks the length before it looks at the path
+      if ld = .file ∧ len > ISIZE_MAX then .error (.load .invalidLength)
+      else if !allowed loc then .error (.load .disallowed)
+      else match lookup loc with
+        | none => .error (.load .notFound)
+        | some file =>
+          match ld with
+          | .file =>
+            match fileRead file off len with
+            | .ok bs => .ok bs
+            | .error e => .error (.load e)
+          | .mmap =>
+            match mmapRange off len file.length with
+            | .error e => .error (.load e)
+            | .ok r => match sliceOf file r with
+              | some bs => .ok bs
+              | none => .error (.load .io)   -- would be a panic in `DataSlice::data`; unreachable (T3)
+          | .mem =>
+            match memRange off len file.length with
+            | .error e => .error (.load e)
+            | .ok r => match sliceOf file r with
+              | some bs => .ok bs
+              | none => .error (.load .io)
 
 end RtenVerif.ExtData
